@@ -260,8 +260,22 @@ class _Simplify(ast.NodeTransformer):
 
 
     def visit_Call(self, n: ast.Call):
-        """f(*(a, b, c)) -> f(a, b, c)"""
+        """f(*(a, b, c)) -> f(a, b, c);  map(f, (a, b)) -> [f(a), f(b)];  reversed((a, b)) -> (b, a);  any/all over a literal -> or/and"""
         self.generic_visit(n)
+        if isinstance(n.func, ast.Name) and not n.keywords:
+            lit = lambda e: isinstance(e, (ast.Tuple, ast.List)) and len(e.elts) <= 8 and not any(isinstance(x, ast.Starred) for x in e.elts)
+            if n.func.id == "map" and len(n.args) == 2 and lit(n.args[1]) and isinstance(n.args[0], (ast.Name, ast.Attribute)):
+                return ast.List(elts=[ast.Call(func=copy.deepcopy(n.args[0]), args=[x], keywords=[]) for x in n.args[1].elts], ctx=ast.Load())
+            if n.func.id == "reversed" and len(n.args) == 1 and lit(n.args[0]):
+                return ast.Tuple(elts=list(reversed(n.args[0].elts)), ctx=ast.Load())
+            if n.func.id in ("tuple", "list") and len(n.args) == 1 and lit(n.args[0]):
+                return (ast.Tuple if n.func.id == "tuple" else ast.List)(elts=list(n.args[0].elts), ctx=ast.Load())
+            if n.func.id in ("any", "all") and len(n.args) == 1:
+                a = n.args[0]
+                if isinstance(a, ast.GeneratorExp):
+                    a = self.visit_ListComp(ast.ListComp(elt=a.elt, generators=a.generators))
+                if isinstance(a, (ast.List, ast.Tuple)) and a.elts and len(a.elts) <= 8:
+                    return ast.BoolOp(op=ast.Or() if n.func.id == "any" else ast.And(), values=list(a.elts)) if len(a.elts) > 1 else a.elts[0]
         if any(isinstance(a, ast.Starred) and isinstance(a.value, (ast.Tuple, ast.List)) and not any(isinstance(x, ast.Starred) for x in a.value.elts) for a in n.args):
             args = []
             for a in n.args:
